@@ -1549,3 +1549,18 @@ def default_default(I, args, callee):
     if h == '()':
         return unit()
     raise Unmodelled('Default::default for ' + t)
+
+
+@model('iter::repeat', 'repeat')
+def iter_repeat(I, args, callee):
+    return IterV('repeat', v=args[0])
+
+
+_old_iter_next = iter_next
+
+
+def iter_next(I, it):  # noqa: F811  (extends the dispatcher with the infinite `repeat` source)
+    it0 = it.get() if type(it) is Ref else it
+    if type(it0) is IterV and it0.kind == 'repeat':
+        return True, clone_value(I, it0.st['v'])
+    return _old_iter_next(I, it)
